@@ -35,11 +35,21 @@ def sh(cmd, cwd=None, env=None, timeout=1800):
 
 
 def main():
-    outdir, k, seed_id = sys.argv[1], sys.argv[2], sys.argv[3]
-    checks = sys.argv[4:]
-    patch = os.path.join(outdir, 'mutant%s.diff' % k)
-    demo = os.path.join(outdir, 'demo%s.py' % k)
-    meta = json.load(open(os.path.join(outdir, 'meta%s.json' % k)))
+    if sys.argv[1] == '--reseed':
+        # re-confirm and re-check an already filed seed
+        seed_id = sys.argv[2]
+        checks = sys.argv[3:]
+        d = os.path.join('/verif/seeded', seed_id)
+        patch, demo = os.path.join(d, 'patch.diff'), os.path.join(d, 'demo.py')
+        meta = json.load(open(os.path.join(d, 'meta.json')))
+        meta = {k: v for k, v in meta.items()
+                if k not in ('confirmed', 'checks', 'what_was_run')}
+    else:
+        outdir, k, seed_id = sys.argv[1], sys.argv[2], sys.argv[3]
+        checks = sys.argv[4:]
+        patch = os.path.join(outdir, 'mutant%s.diff' % k)
+        demo = os.path.join(outdir, 'demo%s.py' % k)
+        meta = json.load(open(os.path.join(outdir, 'meta%s.json' % k)))
     tmp = tempfile.mkdtemp(prefix='vmc-seed-', dir='/var/tmp')
     res = dict(meta)
     try:
@@ -89,8 +99,9 @@ def main():
             ).decode().strip())
         dst = os.path.join('/verif/seeded', seed_id)
         os.makedirs(dst, exist_ok=True)
-        shutil.copy(patch, os.path.join(dst, 'patch.diff'))
-        shutil.copy(demo, os.path.join(dst, 'demo.py'))
+        if os.path.abspath(patch) != os.path.join(dst, 'patch.diff'):
+            shutil.copy(patch, os.path.join(dst, 'patch.diff'))
+            shutil.copy(demo, os.path.join(dst, 'demo.py'))
         with open(os.path.join(dst, 'meta.json'), 'w') as f:
             json.dump(res, f, indent=1, sort_keys=True)
         print(seed_id, 'confirmed=%s' % ok,
